@@ -43,14 +43,7 @@ fn once(class: Class, b0: u8, len: usize, blen: usize) -> (Outcome, RecStats) {
 srv_harness! {
     #[kani::unwind(4)]
     fn c21_once() {
-        // answer does not fit: buffers of 0, 1 and 47 bytes for a time answer and a deny kiss
-        let (out, stats) = once(Class::Time, 0x23, 48, 47);
-        assert!(out.kind.is_none() && stats.reason == ServerReason::InternalError && stats.response == ServerResponse::Ignore, "C21: serialisation failure recorded once as (InternalError, Ignore)");
-        let (out, stats) = once(Class::DenyList, 0x1B, 52, 1);
-        assert!(out.kind.is_none() && stats.reason == ServerReason::InternalError, "C21: serialisation failure recorded once as (InternalError, Ignore)");
-        let (out, stats) = once(Class::Time, 0x23, 48, 0);
-        assert!(out.kind.is_none() && stats.reason == ServerReason::InternalError, "C21: serialisation failure recorded once as (InternalError, Ignore)");
-        // larger buffer than the request: answered, registered once with the right kind
+        // a buffer larger than the request: answered, registered once with the right kind
         let (out, stats) = once(Class::Time, 0x23, 48, 56);
         assert!(out.kind == Some(Kind::Time) && stats.reason == ServerReason::Policy, "C21: time answer recorded");
         kani::cover!(out.resp_len == 48, "time answer into a larger buffer");
@@ -61,6 +54,26 @@ srv_harness! {
         assert!(out.kind.is_none() && stats.reason == ServerReason::ParseError, "C21: short datagram recorded as parse error");
         let (out, stats) = once(Class::DenyList, 0x3B, 48, 48);
         assert!(out.kind.is_none() && stats.reason == ServerReason::ParseError, "C21: unknown version recorded as parse error");
+        kani::cover!(stats.calls == 1, "registered once");
+    }
+}
+
+srv_harness! {
+    #[kani::unwind(4)]
+    fn c21_once_buf0() {
+        // answer does not fit: empty buffer
+        let (out, stats) = once(Class::Time, 0x23, 48, 0);
+        assert!(out.kind.is_none() && stats.reason == ServerReason::InternalError && stats.response == ServerResponse::Ignore, "C21: serialisation failure recorded once as (InternalError, Ignore)");
+        kani::cover!(stats.calls == 1, "registered once");
+    }
+}
+
+srv_harness! {
+    #[kani::unwind(4)]
+    fn c21_once_buf47() {
+        // answer does not fit: one byte short, DENY kiss
+        let (out, stats) = once(Class::DenyList, 0x1B, 52, 47);
+        assert!(out.kind.is_none() && stats.reason == ServerReason::InternalError && stats.response == ServerResponse::Ignore, "C21: serialisation failure recorded once as (InternalError, Ignore)");
         kani::cover!(stats.calls == 1, "registered once");
     }
 }
